@@ -1075,6 +1075,7 @@ def run(ctx):
   for kind, case in fixed:
     run_one(kind, case)
   skipped = 0
+  gen_errors = []
   with installed():
     gens = [(make_gen(rng, focus=focus, quirks=quirks, notify_off=off), kind, int(n * w)) for kind, focus, w, off in plan]
   # round-robin over the generators, so that a budget cut keeps the mix
@@ -1086,11 +1087,18 @@ def run(ctx):
       if time.time() > deadline_random:
         skipped += t[2]; t[2] = 0
         continue
-      with installed():
-        case = t[0].case(rng.choice([4, 8, 10, 12]))
-      run_one(t[1], case)
       t[2] -= 1
+      try:
+        with installed():
+          case = t[0].case(rng.choice([4, 8, 10, 12]))
+      except Exception as e:     # the generator drives the implementation while it generates: never crash on what it does
+        gen_errors.append('%s: %s' % (type(e).__name__, str(e)[:200]))
+        continue
+      run_one(t[1], case)
   ctx.extra['generated_cases_skipped_for_time_budget'] = skipped
+  ctx.extra['generator_errors'] = dict(count=len(gen_errors), first=gen_errors[:3])
+  if len(gen_errors) > max(5, len(cases) // 50):      # fail closed: the generator cannot drive the implementation any more
+    ctx.broken.append(dict(kind='generator-crash', name='Gen9.case', detail='%d cases could not be generated; first: %s' % (len(gen_errors), gen_errors[0])))
   ctx.log('implementation ran %d cases in %.1fs (%d generated cases skipped for the time budget)' % (len(cases), time.time() - t0, skipped))
   model_outs = ctx.model_run(cases)
   diffs = {}
@@ -1099,12 +1107,20 @@ def run(ctx):
       diffs[id(c)] = describe_diff(c, a, b)
   bad = ctx.compare('SymCoreEvents.run vs pg.Dict / pg.List / pg.Object (outcome, snapshot, event log, memoised facts held, observed facts after every step)',
                     cases, impl_outs, model_outs, describe=lambda c: diffs.get(id(c)))
-  scope_checks(ctx)
+  try:
+    scope_checks(ctx)
+  except Exception as e:       # pylint: disable=broad-except
+    ctx.hit('C09/silent/scope-checks/raises', 'the notification-flag checks raised %s: %s' % (type(e).__name__, str(e)[:200]), dict(scope_check=True))
   # typed trees (required / default fields, MISSING_VALUE, pg.oneof): direct oracles only
   t1 = time.time()
   tsteps, tcases, twant = 0, 0, ctx.scale(60, 2500)
   while tcases < twant and time.time() < deadline_typed:
-    tsteps += typed_case(ctx, rng.randrange(1 << 30), 12); tcases += 1
+    tseed = rng.randrange(1 << 30)
+    try:
+      tsteps += typed_case(ctx, tseed, 12)
+    except Exception as e:     # building the typed tree or the candidate operations failed: an outcome, not a crash
+      ctx.hit('C09/typed/harness/%s' % type(e).__name__, 'a typed history could not be run: %s: %s' % (type(e).__name__, str(e)[:200]), dict(typed_seed=tseed, steps=12))
+    tcases += 1
   ctx.log('typed trees: %d histories, %d steps in %.1fs (%d skipped for the time budget)' % (tcases, tsteps, time.time() - t1, twant - tcases))
   ctx.extra['typed_steps'] = tsteps
   ctx.extra['typed_histories'] = tcases
